@@ -36,6 +36,7 @@ def main():
     if a.replay:
         return do_replay(a.replay, a.logdir)
     prop = a.prop
+    obligations.TIER = a.tier
     timeout = 60 if a.tier == "quick" else 600
     results = []
     smtdir = os.path.join(a.logdir, "smt2")
@@ -119,13 +120,20 @@ def decide_obligation(o, timeout, smtdir, logdir, val, env):
                 reproduced = bool(violated(js))
             except Exception as e:  # noqa: BLE001
                 details.append(f"replay crashed: {e}")
-        r["reproduced"] = reproduced
         rdir = os.path.join(VERIF, "replays", o.prop)
         os.makedirs(rdir, exist_ok=True)
-        rpath = os.path.join(rdir, f"{o.name}.json")
+        nfail = len(r.setdefault("failures", []))
+        rpath = os.path.join(rdir, f"{o.name}.json" if nfail == 0 else f"{o.name}.{nfail}.json")
         json.dump({"property": o.prop, "engine": "mir-smt", "obligation": o.name, "query": q["name"], "model": cex, "native_cmd": cmdline, "native_out": native_out, "smt2": d["smt2"]}, open(rpath, "w"), indent=1)
-        r["replay"] = rpath
+        r["failures"].append({"where": q["name"], "reproduced": reproduced, "replay": rpath})
+        if nfail == 0:
+            r["reproduced"] = reproduced
+            r["replay"] = rpath
         details.append(f"{q['name']}: counterexample {dict(list(cex.items())[:8])} native={native_out}")
+        # a further failing query of the same obligation may be a different violation (the first one may be a
+        # listed known finding): keep going, within reason
+        if o.collect_all and nfail < 6:
+            continue
         break
     r["proved"] = proved
     r["covers"] = f"{covers_sat}/{covers}"
